@@ -342,9 +342,9 @@ impl Check for VaultCheck {
     }
     fn runs(&self, tier: Tier) -> u64 {
         if tier == Tier::Quick {
-            500
+            2000
         } else {
-            50_000
+            50000
         }
     }
     fn components(&self) -> serde_json::Value {
